@@ -13,21 +13,31 @@ C19 — Time-dependent dynamic values are a pure function of time.
 
 Model: TimeDyn/Model.lean (`runOp`/`runOps` = one statement / a block of the
 history; a history is an arbitrary `List Op`, contexts nest, `raise` may occur
-anywhere).  `env.hash`, `env.draw`, `env.stream` are uninterpreted.
+anywhere).  `env.hash`, `env.reseed`, `env.next`, `env.init` (md5 hashing, seeding and drawing from a
+random stream whose state every generator carries) are uninterpreted.
+What is derived and what is definitional here: that a time-dependent generator's value does not
+depend on the state of its random stream is derived from the model of the call (re-seed from
+`hash name seed t`, then draw; the stream state `g.rng` is carried and ignored), and that the
+Dynamic cache never serves a value of another time is the invariant `Inv`, preserved by every
+history.  `inspect_never_advances` for a single inspection is immediate from the model (`_inspect`
+only reads); the statement with content is `inspections_are_transparent` over histories.
+`state_pop_restores_cache` covers one push … pop pair around an arbitrary block without further
+push/pop/assign/instantiate; nested and interleaved push/pop pairs are executed on the real code and
+checked by the oracle (Spec.checkPushPop) but not proved.  Fraction/float times are not modelled.
 Only property theorems and non-vacuity examples live here.
 -/
 import ParamVerif.TimeDyn.Lemmas
 
 namespace ParamVerif.TimeDyn
-variable {H V : Type}
+variable {H S V : Type}
 
 /-- "with time-dependent dynamic parameters" (`Dynamic.time_dependent = True`) and every cached
 pair of a time-dependent generator is the placeholder `(None, _NO_TIME)` or `(gen name seed t, t)`.
 Holds for every freshly built world (`inv_fresh`) and is preserved by every history. -/
-def Inv (env : Env H V) (w : World V) : Prop := w.dynTD = true ∧ HeapOK env w.gens
+def Inv (env : Env H S V) (w : World S V) : Prop := w.dynTD = true ∧ HeapOK env w.gens
 
 /-- any world whose generators have just been created is coherent -/
-theorem inv_fresh (env : Env H V) (w : World V) (hd : w.dynTD = true)
+theorem inv_fresh (env : Env H S V) (w : World S V) (hd : w.dynTD = true)
     (h : ∀ g ∈ w.gens, ∃ k, g = Gen.fresh k) : Inv env w := by
   refine ⟨hd, ?_⟩
   intro g hg
@@ -35,27 +45,29 @@ theorem inv_fresh (env : Env H V) (w : World V) (hd : w.dynTD = true)
   exact GenOK_fresh env k
 
 /-- **every history preserves coherence** (all op sequences, nested contexts, exceptions) -/
-theorem history_preserves_inv (env : Env H V) (ops : List Op) (w : World V) (h : Inv env w) :
+theorem history_preserves_inv (env : Env H S V) (ops : List Op) (w : World S V) (h : Inv env w) :
     Inv env (runOps env ops w).2 :=
   ⟨(runOps_pushed env ops w).2.trans h.1, runOps_heapOK env ops w h.1 h.2⟩
 
 /-! ## Reading -/
 
-/-- One read of a time-dependent generator `(name, seed)` at time `t` returns
-`draw (hash name seed t)` (provided the generator returns at all: see `failed_read_keeps_cache`):
-a cache hit can only be a value produced at this very time, because the marker `_NO_TIME` of a
-fresh generator is unequal to every time (−1 included), and because a generation that raised
-left value and time stamp untouched. -/
-theorem read_value (env : Env H V) (w : World V) (tg : Target) (p gi : Nat) (g : Gen V)
-    (n : String) (s : Int) (pt : PType) (hinv : Inv env w)
-    (hr : resolve w tg p = some (.gen gi)) (hg : w.gens[gi]? = some g) (hk : g.kind = .td n s)
+/-- One read of a generator that computes a function `f` of time (`GenKind.timeFn`: a
+time-dependent random distribution, or a `TimeSampledFn` over one) returns `f t` at time `t`
+(provided the generator returns at all: see `failed_read_keeps_cache`): a cache hit can only be a
+value produced at this very time, because the marker `_NO_TIME` of a fresh generator is unequal
+to every time (−1 included), and because a generation that raised left value and time stamp
+untouched.  The state of the generator's random stream (`g.rng`) does not enter: a
+time-dependent generator re-seeds it from `(name, seed, t)` before every draw. -/
+theorem read_value_fn (env : Env H S V) (w : World S V) (tg : Target) (p gi : Nat) (g : Gen S V)
+    (f : Int → V) (pt : PType) (hinv : Inv env w)
+    (hr : resolve w tg p = some (.gen gi)) (hg : w.gens[gi]? = some g) (hk : g.kind.timeFn env = some f)
     (hp : w.ptypes[p]? = some pt) (hnf : g.failsNow = none) :
-    (runOp env (.read tg p) w).1 = .ok (.val (some (env.tdVal n s w.clock.time))) := by
+    (runOp env (.read tg p) w).1 = .ok (.val (some (f w.clock.time))) := by
   simp only [runOp, readSlot, hr, hp, hg, hinv.1]
   rw [readGen_nofail env _ _ _ g false (by simp [hnf])]
   simp only [produceValue]
   have hok := HeapOK_get env _ _ g hinv.2 hg
-  unfold GenOK at hok
+  unfold GenOK GenOK' at hok
   simp only [hk] at hok
   by_cases ht : some w.clock.time = g.lastTime
   · -- cache hit: the cached value was produced at this very time
@@ -71,14 +83,33 @@ theorem read_value (env : Env H V) (w : World V) (tg : Target) (p gi : Nat) (g :
       simp at ht
   · have : (some w.clock.time != g.lastTime) = true := by simpa using ht
     simp only [Bool.not_true, Bool.false_eq_true, if_false, Bool.false_or, this, if_true,
-      produce_val_td env g _ n s hk]
+      produce_val env g _ f hk]
     cases pt <;> rfl
+
+/-- the case of a time-dependent random distribution `(name, seed)`: the value is
+`(next (reseed (hash name seed t))).1` -/
+theorem read_value (env : Env H S V) (w : World S V) (tg : Target) (p gi : Nat) (g : Gen S V)
+    (n : String) (s : Int) (pt : PType) (hinv : Inv env w)
+    (hr : resolve w tg p = some (.gen gi)) (hg : w.gens[gi]? = some g) (hk : g.kind = .td n s)
+    (hp : w.ptypes[p]? = some pt) (hnf : g.failsNow = none) :
+    (runOp env (.read tg p) w).1 = .ok (.val (some (env.tdVal n s w.clock.time))) :=
+  read_value_fn env w tg p gi g _ pt hinv hr hg (by rw [hk]; rfl) hp hnf
+
+/-- **Reading never moves the clock** (a `TimeSampledFn` visits its sample time inside a time
+context and comes back): time, timestep, until and the context stack after a read, a forced
+generation or an inspection are what they were before. -/
+theorem read_keeps_clock (env : Env H S V) (w : World S V) (tg : Target) (p : Nat) (f : Bool) :
+    (readSlot env w tg p f).2.clock.time = w.clock.time ∧
+    (readSlot env w tg p f).2.clock.timestep = w.clock.timestep ∧
+    (readSlot env w tg p f).2.clock.untl = w.clock.untl ∧
+    (readSlot env w tg p f).2.clock.pushed = w.clock.pushed :=
+  readSlot_clock env w tg p f
 
 /-- The full statement: after *any* history, from any coherent world, a read of a time-dependent
 generator with name `n` and seed `s` returns `gen n s t` for the current time `t`. -/
 def C19_full : Prop :=
-  ∀ (H V : Type) (env : Env H V) (w0 : World V), Inv env w0 →
-  ∀ (ops : List Op) (tg : Target) (p gi : Nat) (g : Gen V) (n : String) (s : Int) (pt : PType),
+  ∀ (H S V : Type) (env : Env H S V) (w0 : World S V), Inv env w0 →
+  ∀ (ops : List Op) (tg : Target) (p gi : Nat) (g : Gen S V) (n : String) (s : Int) (pt : PType),
     resolve (runOps env ops w0).2 tg p = some (.gen gi) →
     (runOps env ops w0).2.gens[gi]? = some g → g.kind = .td n s →
     (runOps env ops w0).2.ptypes[p]? = some pt → g.failsNow = none →
@@ -88,8 +119,8 @@ def C19_full : Prop :=
 /-- **C19 (reads).**  After any history a read of a time-dependent generator returns a value that
 depends on `(name, seed, current time)` only — not on the order in which times were visited, not
 on the instance, not on what was read, inspected, forced, pushed or popped before. -/
-theorem read_is_function_of_time (env : Env H V) (w0 : World V) (h0 : Inv env w0)
-    (ops : List Op) (tg : Target) (p gi : Nat) (g : Gen V) (n : String) (s : Int) (pt : PType)
+theorem read_is_function_of_time (env : Env H S V) (w0 : World S V) (h0 : Inv env w0)
+    (ops : List Op) (tg : Target) (p gi : Nat) (g : Gen S V) (n : String) (s : Int) (pt : PType)
     (hr : resolve (runOps env ops w0).2 tg p = some (.gen gi))
     (hg : (runOps env ops w0).2.gens[gi]? = some g) (hk : g.kind = .td n s)
     (hp : (runOps env ops w0).2.ptypes[p]? = some pt) (hnf : g.failsNow = none) :
@@ -98,16 +129,17 @@ theorem read_is_function_of_time (env : Env H V) (w0 : World V) (h0 : Inv env w0
   read_value env _ tg p gi g n s pt (history_preserves_inv env ops w0 h0) hr hg hk hp hnf
 
 theorem C19_full_holds : C19_full :=
-  fun _ _ env w0 h0 ops tg p gi g n s pt hr hg hk hp hnf =>
+  fun _ _ _ env w0 h0 ops tg p gi g n s pt hr hg hk hp hnf =>
     read_is_function_of_time env w0 h0 ops tg p gi g n s pt hr hg hk hp hnf
 
 /-- regression witness of the repaired defect (`_Dynamic_time` used to start at −1): class `A`
 with `x = Dynamic(default=UniformRandom(name='g', seed=0, time_dependent=True))`;
 `time_fn(-1); A.x` is the generated value, not the placeholder -/
-def witnessWorld : World Nat :=
+def witnessWorld : World Nat Nat :=
   { dynTD := true, clock := Clock.init, gens := [Gen.fresh (.td "g" 0)], ptypes := [.dynamic],
     defaults := [.gen 0], insts := [] }
-def witnessEnv : Env Int Nat := { hash := fun _ s t => s + t, draw := fun h => h.toNat + 7, stream := fun _ k => k }
+def witnessEnv : Env Int Nat Nat :=
+  { hash := fun _ s t => s + t, reseed := fun h => h.toNat + 7, next := fun st => (2 * st + 1, st + 1), init := fun k => k }
 
 example : (runOp witnessEnv (.read .cls 0) (runOps witnessEnv [.setTime (-1)] witnessWorld).2).1
     = .ok (.val (some (witnessEnv.tdVal "g" 0 (-1)))) := by
@@ -116,8 +148,8 @@ example : (runOp witnessEnv (.read .cls 0) (runOps witnessEnv [.setTime (-1)] wi
 /-- **Order and instance independence.**  Two arbitrary histories from two arbitrary coherent
 worlds, two parameters (any instances) whose generators have the same name and seed, read at the
 same time: the same value. -/
-theorem read_same_any_order_any_instance (env : Env H V) (w w' : World V) (h : Inv env w) (h' : Inv env w')
-    (ops ops' : List Op) (tg tg' : Target) (p p' gi gi' : Nat) (g g' : Gen V) (n : String) (s : Int)
+theorem read_same_any_order_any_instance (env : Env H S V) (w w' : World S V) (h : Inv env w) (h' : Inv env w')
+    (ops ops' : List Op) (tg tg' : Target) (p p' gi gi' : Nat) (g g' : Gen S V) (n : String) (s : Int)
     (pt pt' : PType)
     (hr : resolve (runOps env ops w).2 tg p = some (.gen gi))
     (hg : (runOps env ops w).2.gens[gi]? = some g) (hk : g.kind = .td n s)
@@ -133,7 +165,7 @@ theorem read_same_any_order_any_instance (env : Env H V) (w w' : World V) (h : I
 
 /-- **Repeated reads.**  Reading any dynamic parameter (any generator, time-dependent or not)
 twice at the same time returns the same result, and the second read changes nothing. -/
-theorem repeated_read_same (env : Env H V) (w : World V) (tg : Target) (p : Nat) (hd : w.dynTD = true)
+theorem repeated_read_same (env : Env H S V) (w : World S V) (tg : Target) (p : Nat) (hd : w.dynTD = true)
     (hnf : ∀ gi g, resolve w tg p = some (.gen gi) → w.gens[gi]? = some g → g.failsNow = none) :
     runOp env (.read tg p) (runOp env (.read tg p) w).2 = runOp env (.read tg p) w := by
   simp only [runOp]
@@ -154,11 +186,13 @@ theorem repeated_read_same (env : Env H V) (w : World V) (tg : Target) (p : Nat)
             rcases Nat.lt_or_ge gi w.gens.length with h | h
             · exact h
             · simp [List.getElem?_eq_none h] at hg
-          have hr' : ∀ (d : Bool) (hp' : List (Gen V)),
-              resolve { w with gens := hp', dynTD := d } tg p = some (.gen gi) := by
-            intro d hp'; simpa [resolve] using hr
-          -- the generator after the first read has `lastTime = now`: the second read is a cache hit
+          have hr' : ∀ (d : Bool) (c : Clock) (hp' : List (Gen S V)),
+              resolve { w with gens := hp', dynTD := d, clock := c } tg p = some (.gen gi) := by
+            intro d c hp'; simpa [resolve] using hr
           have hn := hnf gi g hr hg
+          have hc1 : (if entersCtx true w.clock.time g false = true then w.clock.touch else w.clock).time
+              = w.clock.time := by split <;> rfl
+          -- the generator after the first read has `lastTime = now`: the second read is a cache hit
           have key : produceValue env true w.clock.time (produceValue env true w.clock.time g false).2 false
               = ((produceValue env true w.clock.time g false).1, (produceValue env true w.clock.time g false).2) := by
             unfold produceValue
@@ -174,18 +208,24 @@ theorem repeated_read_same (env : Env H V) (w : World V) (tg : Target) (p : Nat)
             · simp [ht]
             · have : (some w.clock.time != g.lastTime) = true := by simpa using ht
               simp [this]
+          have hg1 : (readGen env true w.clock.time pt g false).2 = (produceValue env true w.clock.time g false).2 := by
+            rw [readGen_nofail env _ _ _ g false (by simp [hn])]
           have key2 : readGen env true w.clock.time pt (readGen env true w.clock.time pt g false).2 false
               = readGen env true w.clock.time pt g false := by
             rw [readGen_nofail env _ _ _ g false (by simp [hn])]
             simp only
             rw [readGen_nofail env _ _ _ _ false (by simp [hcall]), key]
-          simp only [readSlot, hr, hr', hp, hg, hd, List.getElem?_set_self hlt, key2, List.set_set]
+          have hent : entersCtx true w.clock.time (readGen env true w.clock.time pt g false).2 false = false := by
+            unfold entersCtx
+            rw [hg1, hcall]; rfl
+          simp only [readSlot, hr, hr', hp, hg, hd, List.getElem?_set_self hlt, hc1, key2, hent, List.set_set,
+            Bool.false_eq_true, if_false]
 
 /-- **A generation that raises leaves the cache alone.**  If the generator raises while a value
 is being produced (the caller may catch the exception and go on), neither the cached value nor
 its time stamp nor the saved stack of any generator changes: later reads at that time generate
 afresh instead of returning the value of an earlier time. -/
-theorem failed_read_keeps_cache (env : Env H V) (w : World V) (tg : Target) (p gi : Nat) (g : Gen V)
+theorem failed_read_keeps_cache (env : Env H S V) (w : World S V) (tg : Target) (p gi : Nat) (g : Gen S V)
     (pt : PType) (e : Exc) (f : Bool)
     (hr : resolve w tg p = some (.gen gi)) (hg : w.gens[gi]? = some g) (hp : w.ptypes[p]? = some pt)
     (hfail : g.failsNow = some e) (hcall : willCall w.dynTD w.clock.time g f = true) :
@@ -202,7 +242,7 @@ theorem failed_read_keeps_cache (env : Env H V) (w : World V) (tg : Target) (p g
 
 /-- **Inspection never advances.**  `inspect_value` changes nothing at all, and returns the
 cached value of the generator. -/
-theorem inspect_never_advances (env : Env H V) (w : World V) (tg : Target) (p : Nat) :
+theorem inspect_never_advances (env : Env H S V) (w : World S V) (tg : Target) (p : Nat) :
     (runOp env (.inspect tg p) w).2 = w ∧
     ∀ gi g, resolve w tg p = some (.gen gi) → w.gens[gi]? = some g →
       (runOp env (.inspect tg p) w).1 = .ok (.val g.last) := by
@@ -212,7 +252,7 @@ theorem inspect_never_advances (env : Env H V) (w : World V) (tg : Target) (p : 
 
 /-- **Inspections are transparent in every history**: deleting all inspections (at any nesting
 depth) from a history changes neither its outcome nor the final state. -/
-theorem inspections_are_transparent (env : Env H V) (ops : List Op) (w : World V)
+theorem inspections_are_transparent (env : Env H S V) (ops : List Op) (w : World S V)
     (h : (runOps env ops w).1 ≠ .raised .malformed) :
     runOps env (stripOps ops) w = runOps env ops w :=
   strip_ops env ops w h
@@ -220,7 +260,7 @@ theorem inspections_are_transparent (env : Env H V) (ops : List Op) (w : World V
 /-! ## Time contexts -/
 
 /-- **The context stack is balanced over every history** (nested contexts, exceptions anywhere). -/
-theorem clock_stack_balanced (env : Env H V) (ops : List Op) (w : World V) :
+theorem clock_stack_balanced (env : Env H S V) (ops : List Op) (w : World S V) :
     (runOps env ops w).2.clock.pushed = w.clock.pushed :=
   (runOps_pushed env ops w).1
 
@@ -228,7 +268,7 @@ theorem clock_stack_balanced (env : Env H V) (ops : List Op) (w : World V) :
 the stack of saved states — for every body (nested contexts, time jumps, reads, push/pop…) and
 every way of leaving it: normally, by `StopIteration` (swallowed), or by any other exception
 (propagated after the restore). -/
-theorem time_context_restores_exactly (env : Env H V) (body : List Op) (w : World V) :
+theorem time_context_restores_exactly (env : Env H S V) (body : List Op) (w : World S V) :
     (runOp env (.ctx body) w).2.clock.time = w.clock.time ∧
     (runOp env (.ctx body) w).2.clock.timestep = w.clock.timestep ∧
     (runOp env (.ctx body) w).2.clock.untl = w.clock.untl ∧
@@ -254,7 +294,7 @@ generators, create instances or push/pop again), then `_state_pop()` — execute
 outcome of the block, as in `try/finally`: the pop succeeds and every generator of the instance
 has exactly the cached value, cached time and saved stack it had before the push.  (Generators
 shared between several parameters of the instance are pushed and popped once per parameter.) -/
-theorem state_pop_restores_cache (env : Env H V) (w : World V) (i : Nat) (body : List Op) (gs : List Nat)
+theorem state_pop_restores_cache (env : Env H S V) (w : World S V) (i : Nat) (body : List Op) (gs : List Nat)
     (hgs : instGens w i = some gs) (hb : neutralOps body = true) :
     (runOp env (.pop i) (runOps env body (runOp env (.push i) w).2).2).1 = .ok .unit ∧
     ∀ x ∈ gs, ∀ y0, w.gens[x]? = some y0 →
@@ -304,12 +344,12 @@ theorem state_pop_restores_cache (env : Env H V) (w : World V) (i : Nat) (body :
 /-! ## Non-vacuity -/
 
 /-- a world with two instances sharing nothing, one time-dependent and one counter-like generator -/
-def exWorld : World Nat :=
+def exWorld : World Nat Nat :=
   { dynTD := true, clock := Clock.init,
     gens := [Gen.fresh (.td "g" 3), Gen.fresh (.stream 0)], ptypes := [.number, .dynamic],
     defaults := [.gen 0, .gen 1], insts := [] }
-def exEnv : Env Nat Nat :=
-  { hash := fun _ s t => (s + t).toNat, draw := fun h => 2 * h + 1, stream := fun _ k => k }
+def exEnv : Env Nat Nat Nat :=
+  { hash := fun _ s t => (s + t).toNat, reseed := fun h => 2 * h + 1, next := fun st => (3 * st, st + 1), init := fun k => k }
 
 example : Inv exEnv exWorld :=
   inv_fresh _ _ rfl (by intro g hg; simp [exWorld] at hg; rcases hg with h | h <;> exact ⟨_, h⟩)
